@@ -90,7 +90,14 @@ def run(tier, v):
             ipid[0] += 1
             return ipid[0]
         conns = [traffic.connection(rng, 900 + 20 * t + c, ("http", "tls", "tcp")[c % 3], nid, maxpieces=3) for c in range(9)]
-        frames = [f for c in conns for f in c["frames"]]
+        # the connections interleaved (order kept within each): packets a filter rejects arrive between the segments of admitted ones
+        order = [ci for ci, c in enumerate(conns) for _ in c["frames"]]
+        rng.shuffle(order)
+        ptr = [0] * len(conns)
+        frames = []
+        for ci in order:
+            frames.append(conns[ci]["frames"][ptr[ci]])
+            ptr[ci] += 1
         eps = [traffic.endpoints(f) for f in frames]
         # frames no analyzer reads (good TCP segments behind link-layer headers the parsers do not know, noise): part of the whole
         # trace, never of an admitted sub-trace -- whatever the filter makes of them, nothing may be reported for them
@@ -133,12 +140,37 @@ def run(tier, v):
                 base = {"crate": crate, "matcher": True, "cfg": {"http": True, "tcp": True, "tls": True, "matcher": True}}
                 ana.append(dict(base, id="F|%d|%s|%s|%d" % k, frames=whole, filter=cfg))
                 ana.append(dict(base, id="U|%d|%s|%s|%d" % k, frames=sub, filter=None))
+                if crate in ("tls", "http"):
+                    # the same with room for two connections only: what the filter rejects takes no room in the analyzer's tables
+                    k2 = (200000 + t, crate, "mix", ci)
+                    meta[k2] = dict(meta[k], capacity=2)
+                    ana.append(dict(base, id="F|%d|%s|%s|%d" % k2, frames=whole, filter=cfg, cap=2))
+                    ana.append(dict(base, id="U|%d|%s|%s|%d" % k2, frames=sub, filter=None, cap=2))
                 if crate != "uni" and ci % 3 == 0:
                     pool.append({"id": "P3|%d|%s|%s|%d" % k, "crate": crate, "workers": 3, "queue": 256, "batch": 2, "timeout_ms": 5, "dispatchers": [whole], "filter": cfg, "matcher": True, "perturb": 0})
                     if sub:
                         pool.append({"id": "Q3|%d|%s|%s|%d" % k, "crate": crate, "workers": 3, "queue": 256, "batch": 2, "timeout_ms": 5, "dispatchers": [sub], "filter": None, "matcher": True, "perturb": 0})
                     else:
                         empty_ref.append(("Q3",) + k)
+    # ---- what a filter rejects takes no room in the tables: an admitted connection whose ClientHello / request arrives in two segments,
+    # and between them the first segments of as many rejected connections as the tables hold (capacity 2)
+    from props import c10
+    Ha, Hb, Hc = c10.hello("admitted.example"), c10.hello("rejected-b.example"), c10.hello("rejected-c.example")
+    Rq = lambda n: ("GET /%s HTTP/1.1\r\nHost: %s.example\r\nUser-Agent: %s/1.0\r\n\r\n" % (n, n, n)).encode()
+    for crate, port, A_, B_, C_ in (("tls", 443, Ha, Hb, Hc), ("http", 80, Rq("admitted"), Rq("rejected-b"), Rq("rejected-c"))):
+        fr = lambda k, sp, dp, seq, data, fl=0x18: c10.frame((10, 11, 0, k), (10, 11, 9, 9), sp, dp, seq, 1, fl, data, ipid=k * 100 + seq % 97)
+        syns = [fr(1, 50001, port, 0, b"", 0x02), fr(2, 50002, port + 8000, 0, b"", 0x02), fr(3, 50003, port + 8000, 0, b"", 0x02)] if crate == "http" else []
+        whole = syns + [fr(1, 50001, port, 1, A_[:30]), fr(2, 50002, port + 8000, 1, B_[:30]), fr(3, 50003, port + 8000, 1, C_[:30]),
+                        fr(1, 50001, port, 31, A_[30:]), fr(2, 50002, port + 8000, 31, B_[30:]), fr(3, 50003, port + 8000, 31, C_[30:])]
+        sub = [f for f in whole if f[36:38] == bytes([port >> 8, port & 255])]
+        cfg = {"deny": False, "port": [{"sp": [], "dp": [port], "sr": [], "dr": [], "any": False}], "ip": [], "sub": []}
+        for pi_, path_crate in enumerate((crate, crate + "_par")):
+            k = (300000 + pi_, crate, "tight", 0)
+            meta[k] = {"shape": {"scenario": "an admitted connection in two segments, two rejected ones between them, capacity 2", "path": path_crate}, "analyzer": crate, "trace": "tight", "filter": cfg,
+                       "frames": [f.hex() for f in whole], "admitted_subtrace": [f.hex() for f in sub], "class": []}
+            base = {"crate": path_crate, "matcher": True, "cfg": {"http": True, "tcp": True, "tls": True, "matcher": True}, "cap": 2, "parallel": {"workers": 1, "queue": 64, "batch": 2, "timeout_ms": 5}}
+            ana.append(dict(base, id="F|%d|%s|%s|%d" % k, frames=[f.hex() for f in whole], filter=cfg))
+            ana.append(dict(base, id="U|%d|%s|%s|%d" % k, frames=[f.hex() for f in sub], filter=None))
     areq = os.path.join(wd, "ana.req")
     vlib.write_ndjson(areq, ana)
     aout = os.path.join(wd, "ana.out")
